@@ -265,8 +265,10 @@ class SymExec:
         positive = isinstance(op, (ast.Is, ast.Eq))
 
         def not_none(p: Poly) -> bool:
+            # a number, the result of arithmetic (anything but one opaque atom), or a constructed value
             st = self.parts(p)
-            return p.const_value() is not None or (st is not None and st[0] in ("tuple", "Sample", "wrap", "cond"))
+            return p.const_value() is not None or p.as_atom() is None or (
+                st is not None and st[0] in ("tuple", "Sample", "wrap", "cond", "min", "max"))
 
         if a == b and (a == NONE or isinstance(op, (ast.Is, ast.IsNot))):
             return ("const", positive)
@@ -405,6 +407,24 @@ class SymExec:
                 self._swap(root, c, tmp)
             pre.append(ast.copy_location(ast.Assign(targets=[ast.Name(id=name, ctx=ast.Store())], value=c), c))
 
+    def _lift_walrus(self, holder: ast.AST, field: str) -> list[ast.stmt]:
+        """`(x := e)` inside the expression `holder.field` becomes `x = e` before the statement (analysis only:
+        the bound expression is pure here, so evaluating it unconditionally changes nothing that is looked at)."""
+        pre: list[ast.stmt] = []
+        while True:
+            root = getattr(holder, field)
+            w = [n for n in self._walk_expr(root) if isinstance(n, ast.NamedExpr)]
+            w = [n for n in w if not any(isinstance(x, ast.NamedExpr) and x is not n for x in self._walk_expr(n.value))]
+            if not w:
+                return pre
+            n = w[0]
+            name = ast.copy_location(ast.Name(id=n.target.id, ctx=ast.Load()), n)
+            if n is root:
+                setattr(holder, field, name)
+            else:
+                self._swap(root, n, name)
+            pre.append(ast.copy_location(ast.Assign(targets=[ast.Name(id=n.target.id, ctx=ast.Store())], value=n.value), n))
+
     def prep(self, stmts: list[ast.stmt]) -> list[ast.stmt]:
         return self._prep(copy.deepcopy(stmts))
 
@@ -416,6 +436,26 @@ class SymExec:
                 self.closures.setdefault((fn.qual, s.name), FuncInfo(s.name, fn.module, s, None, fn))
         for s in stmts:
             if isinstance(s, ast.Expr) and isinstance(s.value, ast.Constant):
+                continue
+            if isinstance(s, (ast.Assign, ast.AnnAssign, ast.AugAssign, ast.Return, ast.Expr)) and s.value is not None \
+                    and any(isinstance(n, ast.NamedExpr) for n in self._walk_expr(s.value)):
+                out.extend(self._prep(self._lift_walrus(s, "value") + [s]))
+                continue
+            if isinstance(s, ast.If) and isinstance(s.test, ast.BoolOp) and any(
+                    isinstance(n, ast.NamedExpr) or self._is_helper_call(n) for v in s.test.values[1:] for n in self._walk_expr(v)):
+                # short-circuit evaluation is kept: a later operand that binds a name or calls a helper is only
+                # evaluated where the earlier operands let it be
+                first, rest = s.test.values[0], s.test.values[1:]
+                rest_test = rest[0] if len(rest) == 1 else ast.copy_location(ast.BoolOp(op=s.test.op, values=rest), s.test)
+                inner = ast.copy_location(ast.If(test=rest_test, body=copy.deepcopy(s.body), orelse=copy.deepcopy(s.orelse)), s)
+                if isinstance(s.test.op, ast.Or):
+                    node = ast.copy_location(ast.If(test=first, body=s.body, orelse=[inner]), s)
+                else:
+                    node = ast.copy_location(ast.If(test=first, body=[inner], orelse=s.orelse), s)
+                out.extend(self._prep([node]))
+                continue
+            if isinstance(s, (ast.If, ast.Assert)) and any(isinstance(n, ast.NamedExpr) for n in self._walk_expr(s.test)):
+                out.extend(self._prep(self._lift_walrus(s, "test") + [s]))
                 continue
             if isinstance(s, (ast.Assign, ast.AnnAssign, ast.AugAssign, ast.Return, ast.Expr)) and s.value is not None:
                 ifx = [n for n in self._walk_expr(s.value) if isinstance(n, ast.IfExp)]
@@ -585,6 +625,10 @@ class SymExec:
         if isinstance(s, ast.Expr):
             if isinstance(s.value, ast.Constant) or (isinstance(s.value, ast.Call) and is_logging_call(s.value)):
                 return nxt(env, facts)
+            if isinstance(s.value, ast.Call) and self._is_helper_call(s.value):
+                # a private helper called for its effect: its body must itself be executable here (bindings,
+                # branches, logging), so it has no effect on the state the rules look at; its paths count
+                return self._run_helper(s.value, env, facts, lambda _v, f2: nxt(env, f2), ctl)
             raise AnalysisError(f"{self.fn_stack[-1].qual}: unsupported expression statement `{u(s)[:80]}`")
         if isinstance(s, ast.Assign):
             return self._assign(s, list(s.targets), s.value, env, facts, nxt, ctl)
@@ -616,6 +660,15 @@ class SymExec:
             return ctl("break", None, env, facts, s)
         if isinstance(s, ast.Raise):
             return ctl("raise", None, env, facts, s)
+        if isinstance(s, ast.Assert):
+            # the passing side learns the asserted facts; the failing side raises (unless already known to hold)
+            c = self.cond(s.test, env)
+            fs = facts_of(c)
+            if ("const", False) not in fs:
+                self._block([], env, facts + tuple(f for f in fs if f != ("const", True) and f not in facts), nxt, ctl)
+            if not all(f == ("const", True) or f in facts for f in fs):
+                ctl("raise", None, env, facts + facts_of(cneg(c)), s)
+            return None
         if isinstance(s, ast.For):
             return self._loop(s, env, facts, nxt, ctl)
         raise AnalysisError(f"{self.fn_stack[-1].qual}: unsupported statement `{u(s)[:60]}` "
